@@ -16,6 +16,7 @@ from ..model import AnalysisError, unparse
 from ..report import RuleResult
 from ..roles import param
 from ._c16_seq import paired_offset
+from ._c16_more import drape_offsets, geometry_kept, grouping_key
 from ._c16_flow import element_vars, enclosing, iterates, prepared, reachable, resolve_call, static_value
 
 _SHIFTED = "shifted_cells__"  # stands for `<input>.cells + <offset>` inside an offset source (a local in the pinned tree)
@@ -626,7 +627,32 @@ def rule_prov(ctx) -> RuleResult:
     _cell_offset(ctx, res)
     _data_offsets(ctx, res)
     _drape_reindex(ctx, res)
+    drape_offsets(ctx, res)
     return res
 
 
-RULES = [rule_prov]
+def rule_key(ctx) -> RuleResult:
+    res = RuleResult(
+        "C16.KEY",
+        "C16",
+        "in BaseMerger.merge_data the key under which the inputs' blocks are grouped into one merged data contains every attribute of the "
+        "input data the merged data is created with (name, association, entity type): data are concatenated per name, type and association",
+        floor=1,
+    )
+    grouping_key(ctx, res)
+    return res
+
+
+def rule_keep(ctx) -> RuleResult:
+    res = RuleResult(
+        "C16.KEEP",
+        "C16",
+        "the geometry a merger computes and hands to <type>.create is not re-bound by the setter of another keyword the merger itself passes "
+        "along (the merged cells / vertices / prisms / layers reach the created object)",
+        floor=2,
+    )
+    geometry_kept(ctx, res)
+    return res
+
+
+RULES = [rule_prov, rule_key, rule_keep]
